@@ -1,0 +1,14 @@
+//go:build verif
+
+package cryptz
+
+// Ghost clients: compiled only under the "verif" build tag (see /verif/DESIGN.md).
+
+// verifPKCS7RoundTrip composes PKCS7Padding and PKCS7UnPadding; its contract states UnPad(Pad(d, b), b) = d.
+func verifPKCS7RoundTrip(d []byte, b int) ([]byte, error) {
+	p, err := PKCS7Padding(d, b)
+	if err != nil {
+		return nil, err
+	}
+	return PKCS7UnPadding(p, b)
+}
